@@ -71,6 +71,13 @@ func (e *env) evalKW(c Case) []finding {
 		}
 		var cs []cond
 		if present != 0 {
+			e.st[stRejected]++
+		} else {
+			e.st[stRoundTrip]++
+			e.st[stRefOpensKit]++
+			e.st[stKitOpensRef]++
+		}
+		if present != 0 {
 			cs = kwLenCond(judgeFaulty(present, 0, o), c.PT)
 			if o.err == nil && o.pan == nil {
 				// what happens to such an output on the way back
@@ -108,6 +115,7 @@ func (e *env) evalKW(c Case) []finding {
 		return []finding{{"machinery/reference-wrap-failed", err.Error()}}
 	}
 	mc := c.Mut.apply(rc)
+	e.st[stMutation]++
 	for _, cd := range judgeMutated(callUnwrap(blk, clip(mc)), p) {
 		if cd.name == "" {
 			cd.name = "modified-wrapped-key-accepted"
@@ -203,6 +211,7 @@ func (e *env) evalAEAD(c Case) []finding {
 	}()
 	right := ci.params.EncKeyLen + ci.params.MacKeyLen
 	if c.KSize != right {
+		e.st[stRejected]++
 		if err == nil {
 			s.add("aescbcaead."+c.Ctor+"/CBC-HMAC/invalid-input-accepted:key", "%s: a %d-byte key was accepted (the algorithm takes %d)", what, c.KSize, right)
 		} else if ae != nil {
@@ -222,6 +231,7 @@ func (e *env) evalAEAD(c Case) []finding {
 		s.add(keyFor(site, aeadAlg, cd), "%s %s: %s", site, what, cd.msg)
 	}
 	if c.Mut != nil {
+		e.st[stMutation]++
 		rn := nonce(16)
 		e, t, err := cryptoref.CBCHMACSeal(ci.params, key, rn, p, ad)
 		if err != nil {
@@ -253,6 +263,13 @@ func (e *env) evalAEAD(c Case) []finding {
 	dst, prefix := makeDst(c.Dst)
 	// Seal
 	o := callSeal(ae, dst, n, p, ad)
+	if c.Nonce != 16 {
+		e.st[stRejected] += 2
+	} else {
+		e.st[stRoundTrip]++
+		e.st[stRefOpensKit]++
+		e.st[stKitOpensRef]++
+	}
 	if c.Nonce != 16 {
 		// cipher.AEAD: "The nonce must be NonceSize() bytes long" - the
 		// interface has no error result for Seal, a panic is the contract
